@@ -49,6 +49,29 @@ func genXXH(w *bufio.Writer, thorough bool, r *Rng) {
 		}
 		fmt.Fprintln(w)
 	}
+	// states in which all four lanes are zero (reachable: each lane is zero after a stripe w with
+	// lane + w*prime2 = 0 mod 2^32): injected, and reached by a crafted stripe
+	for i := 0; i < 24; i++ {
+		start := uint64(16 * (1 + r.Intn(5)))
+		used := r.Intn(16)
+		fmt.Fprintf(w, "XI 0 0 0 0 %d %s %s %s\n", start+uint64(used), hx(r.Bytes(used)), hx(r.Bytes(r.Intn(40))), hx(r.Bytes(r.Intn(20))))
+	}
+	for i := 0; i < 40; i++ {
+		pre := r.Bytes(16 * r.Intn(4))
+		in := append(append([]byte{}, pre...), zeroStripe(pre)...)
+		rest := r.Bytes(1 + r.Intn(50))
+		switch i % 4 {
+		case 0:
+			fmt.Fprintf(w, "XS %s %s\n", hx(in), hx(rest))
+		case 1: // the stripe completes through the buffer
+			k := 1 + r.Intn(len(in)-1)
+			fmt.Fprintf(w, "XS %s %s %s %s\n", hx(in[:k]), hx(in[k:]), hx(rest), hx(r.Bytes(r.Intn(5))))
+		case 2:
+			fmt.Fprintf(w, "XS %s %s %s\n", hx(in), hx(rest[:1]), hx(rest[1:]))
+		default:
+			fmt.Fprintf(w, "XS %s - %s\n", hx(append(in, rest[:len(rest)/2]...)), hx(rest[len(rest)/2:]))
+		}
+	}
 	// injected states around 2^32: total length 2^32-1 .. 2^32+16 after the writes
 	for d := -40; d <= 40; d++ {
 		for _, used := range []int{0, 1, 7, 15} {
@@ -61,6 +84,31 @@ func genXXH(w *bufio.Writer, thorough bool, r *Rng) {
 			fmt.Fprintf(w, "XI %d %d %d %d %d %s %s\n", lanes[0], lanes[1], lanes[2], lanes[3], start, hx(r.Bytes(used)), hx(r.Bytes(tail)))
 		}
 	}
+}
+
+// zeroStripe returns the 16 bytes after which all four XXH32 lanes are zero, given the whole
+// stripes `pre` hashed before (seed 0).
+func zeroStripe(pre []byte) []byte {
+	var p1, p2 uint32 = 2654435761, 2246822519
+	v := [4]uint32{p1 + p2, p2, 0, 0 - p1}
+	rd := func(b []byte) uint32 { return uint32(b[0]) | uint32(b[1])<<8 | uint32(b[2])<<16 | uint32(b[3])<<24 }
+	for i := 0; i+16 <= len(pre); i += 16 {
+		for l := 0; l < 4; l++ {
+			x := v[l] + rd(pre[i+4*l:])*p2
+			v[l] = (x<<13 | x>>19) * p1
+		}
+	}
+	// inverse of prime2 modulo 2^32 (Newton)
+	inv := uint32(1)
+	for k := 0; k < 6; k++ {
+		inv *= 2 - p2*inv
+	}
+	out := make([]byte, 16)
+	for l := 0; l < 4; l++ {
+		wv := (0 - v[l]) * inv
+		out[4*l], out[4*l+1], out[4*l+2], out[4*l+3] = byte(wv), byte(wv>>8), byte(wv>>16), byte(wv>>24)
+	}
+	return out
 }
 
 // ---------- decoders ----------
@@ -247,8 +295,21 @@ var hcDepths = []int{0, 1, 2, 3, 255, 256, 512, 1024, 2048, 4096, 8192, 16384, 3
 
 func emitCmp(w *bufio.Writer, r *Rng, src []byte, dl int) {
 	api := "obj"
-	if r.Intn(3) == 0 {
+	switch r.Intn(4) {
+	case 0:
 		api = "pkg"
+	case 1:
+		// a fresh object with one or two earlier calls, often failing ones (destination too short)
+		api = "hist"
+		for k := 1 + r.Intn(2); k > 0; k-- {
+			ps := genSource(r, r.Pick([]int{60, 400, 3000, 3000}))
+			if r.Bool() && len(ps) > 300 { // late first match: the call fails in the middle of the block
+				copy(ps, r.Bytes(len(ps)))
+				copy(ps[len(ps)-60:], ps[:60])
+			}
+			pd := r.Pick([]int{0, 5, 20, 100, len(ps) / 2, boundOf(len(ps))})
+			api += fmt.Sprintf(":%d:%s", pd, hx(ps))
+		}
 	}
 	if r.Intn(2) == 0 {
 		fmt.Fprintf(w, "CF %s %d %s\n", api, dl, hx(src))
